@@ -14,7 +14,7 @@ EEMS_COMMANDS = {
     "CVTTOFUZZY": "CvtToFuzzy",
     "CVTTOFUZZYCURVE": "CvtToFuzzyCurve",
     "CVTTOFUZZYCAT": "CvtToFuzzyCat",
-    "MEANTOMID": "MeanToMid",
+    "MEANTOMID": "CvtToFuzzyMeanToMid",
     "COPYFIELD": "Copy",
     "NOT": "FuzzyNot",
     "OR": "FuzzyOr",
